@@ -994,7 +994,8 @@ func (p *Prog) Effects(fn *ssa.Function) []*Effect {
 				e.File, e.Line = p.Pos(x.Pos())
 				out = append(out, e)
 			case *ssa.MapUpdate:
-				e := &Effect{Kind: "store", Canon: "store " + env.of(x.Map).String() + "[" + env.of(x.Key).String() + "] = " + env.of(x.Value).String(), Instr: in}
+				e := &Effect{Kind: "store", Canon: "store " + env.of(x.Map).String() + "[" + env.of(x.Key).String() + "] = " + env.of(x.Value).String(), Instr: in,
+					P: &Path{Kind: "index", Args: []*Path{env.of(x.Map), env.of(x.Key)}}, V: env.of(x.Value)}
 				e.File, e.Line = p.Pos(x.Pos())
 				out = append(out, e)
 			case *ssa.Return:
@@ -1080,7 +1081,56 @@ func (p *Prog) EffectSetInlined(fn *ssa.Function) map[string]bool {
 				}
 				set[prefix+c] = true
 			case ge.Kind == "store" && ge.P != nil && ge.V != nil:
-				set["store "+ge.P.Subst(args, hasRecv).String()+" = "+ge.V.Subst(args, hasRecv).String()] = true
+				if ge.P.Kind == "index" && len(ge.P.Args) == 2 {
+					set["store "+ge.P.Args[0].Subst(args, hasRecv).String()+"["+ge.P.Args[1].Subst(args, hasRecv).String()+"] = "+ge.V.Subst(args, hasRecv).String()] = true
+				} else {
+					set["store "+ge.P.Subst(args, hasRecv).String()+" = "+ge.V.Subst(args, hasRecv).String()] = true
+				}
+			}
+		}
+	}
+	return set
+}
+
+// NewHelperEffects: canonical effects performed on fn's behalf by *new* helpers it calls (functions
+// that did not exist on the reviewed tree), in the caller's terms.
+func (p *Prog) NewHelperEffects(fn *ssa.Function) map[string]bool {
+	set := map[string]bool{}
+	if knownFuncs == nil {
+		return set
+	}
+	for _, e := range p.Effects(fn) {
+		if e.Kind != "call" || e.P == nil {
+			continue
+		}
+		ci, ok := e.Instr.(ssa.CallInstruction)
+		if !ok {
+			continue
+		}
+		g := ci.Common().StaticCallee()
+		if g == nil || g == fn || g.Blocks == nil {
+			continue
+		}
+		if n := p.FuncName(g); n == "" || knownFuncs[n] {
+			continue
+		}
+		hasRecv := g.Signature.Recv() != nil
+		for _, ge := range p.Effects(g) {
+			switch {
+			case ge.Kind == "call" && ge.P != nil:
+				c := ge.P.Subst(e.P.Args, hasRecv).String()
+				if strings.HasPrefix(ge.Canon, "defer ") {
+					c = "defer " + c
+				} else if strings.HasPrefix(ge.Canon, "go ") {
+					c = "go " + c
+				}
+				set[c] = true
+			case ge.Kind == "store" && ge.P != nil && ge.V != nil:
+				if ge.P.Kind == "index" && len(ge.P.Args) == 2 {
+					set["store "+ge.P.Args[0].Subst(e.P.Args, hasRecv).String()+"["+ge.P.Args[1].Subst(e.P.Args, hasRecv).String()+"] = "+ge.V.Subst(e.P.Args, hasRecv).String()] = true
+				} else {
+					set["store "+ge.P.Subst(e.P.Args, hasRecv).String()+" = "+ge.V.Subst(e.P.Args, hasRecv).String()] = true
+				}
 			}
 		}
 	}
